@@ -46,6 +46,8 @@ def time_axis_worker(arg):
                 continue
             ok, d = e4.recs_match(o["recs"], sc, e4.spec_for(sc))
             out["results"].append(_res(f"integrate:row r = r-th record() call, column 0 = initial state, column k = state after k steps, sample k acts in step k+1, inputs reach their targets[{lab}]", ok, d))
+            if not ok:
+                out["results"][-1]["model"] = {"scenario": e4.scenario_dict(sc)}
             out["results"].append(_res(f"integrate:frame - no attribute of the module written, externals/external_inds unchanged[{lab}]", not o["writes"] and o["frame_ok"], str(o["writes"])))
             out["results"].append(_res(f"integrate:to_jax first, parameters and states initialised once[{lab}]", o["calls"][:3] == ["to_jax", "get_all_parameters", "get_all_states"] and o["calls"].count("get_all_states") == 1, str(o["calls"][:5])))
     except Exception as e:
@@ -207,6 +209,7 @@ def main(tier):
             continue
         o = o[1]
         ck.refused += o.get("refused", [])
+        n_native = locals().get("n_native", 0)
         for l in o.get("limits", [])[:3]:
             ck.error(f"engine limit (the real code raised only under the uninterpreted-step stubs, natively it runs): {l[:300]}")
         for r in o["results"]:
@@ -218,8 +221,9 @@ def main(tier):
                     ck.extra.setdefault("known_finding_obligations", []).append({"name": r["name"], "detail": r["detail"], "replay": rp})
                     continue
                 ck.add(r)
-                rp = replay_record_synapse() if "recording row" in r["name"] else {"reproduced": False}
-                ck.violation(r["name"], {"solver": r["backend"], "solver_output": r["detail"], "kind": "c08", "replay_module": "jxverif.props.C08", "replay": rp},
+                rp = replay_record_synapse() if "recording row" in r["name"] else (e4.native_replay(r["model"]["scenario"]) if (r.get("model") or {}).get("scenario") and n_native < 3 else {"reproduced": False})
+                n_native += 1 if (r.get("model") or {}).get("scenario") else 0
+                ck.violation(r["name"], {"solver": r["backend"], "solver_output": r["detail"], "kind": "c08", "replay_module": "jxverif.props.C08", "replay": rp, "model": r.get("model", {})},
                              reproduced=rp.get("reproduced", False))
             else:
                 ck.add(r)
@@ -275,4 +279,7 @@ def replay_record_synapse():
 
 
 def replay(p):
+    m = p.get("model") or {}
+    if m.get("scenario"):
+        return e4.native_replay(m["scenario"])
     return replay_record_synapse()
